@@ -5,6 +5,7 @@ from harness import tlc, hostrun
 OWN = {"C10": {"onlyappend", "complete", "rewritten", "toldwhy", "allowed", "notraceback", "readonly"},
        "C09": {"preserves", "happens", "sniff", "allowed", "listed"},
        "C15": {"capacity", "construct"},
+       "C08": {"complete"},          # every image written through the host path is a complete, consistent image of the requested kind (DiskBytes!FsckOK for disks)
        "C11": {"newpath"}, "C16": {"newpath"}}
 # "allowed" (the table) is reported under the property whose cell it is: decided per item below
 
